@@ -5,8 +5,11 @@ import (
 	"encoding/json"
 	"errors"
 	"fmt"
+	"strings"
+	"sync"
 	"testing"
 	"time"
+	_ "time/tzdata" // embedded zone database: the check must not depend on the machine
 
 	"go.lstv.dev/util/date"
 	"pgregory.net/rapid"
@@ -40,6 +43,30 @@ type Case struct {
 	Sec    int64  `json:"sec,omitempty"`
 	Nsec   int64  `json:"nsec,omitempty"`
 	Off    int    `json:"zone_offset_s,omitempty"`
+	// Zone: "" = fixed zone named "z" with offset Off; "name:<n>" = fixed zone named <n> with offset Off;
+	// "tz:<IANA name>" = a time-zone database location (embedded time/tzdata), Off ignored.
+	Zone string `json:"zone,omitempty"`
+}
+
+var tzCache sync.Map
+
+func location(c Case) *time.Location {
+	switch {
+	case strings.HasPrefix(c.Zone, "tz:"):
+		// one *time.Location per zone for the whole process, as programs normally hold them
+		if l, ok := tzCache.Load(c.Zone); ok {
+			return l.(*time.Location)
+		}
+		loc, err := time.LoadLocation(c.Zone[3:])
+		if err != nil {
+			panic("time zone database: " + err.Error())
+		}
+		l, _ := tzCache.LoadOrStore(c.Zone, loc)
+		return l.(*time.Location)
+	case strings.HasPrefix(c.Zone, "name:"):
+		return time.FixedZone(c.Zone[5:], c.Off)
+	}
+	return time.FixedZone("z", c.Off)
 }
 
 func mk(c Case, w *vkit.W, v YMD) (date.Date, bool) {
@@ -148,11 +175,12 @@ func judge(c Case, w *vkit.W) {
 			}
 		}
 	case "fromtime":
-		t := time.Unix(c.Sec, c.Nsec).In(time.FixedZone("z", c.Off))
+		t := time.Unix(c.Sec, c.Nsec).In(location(c))
 		if t.IsZero() {
 			return // the statement speaks of non-zero times
 		}
-		local := c.Sec + int64(c.Off)
+		_, off := t.Zone() // the offset in force at that instant in the time's own location
+		local := c.Sec + int64(off)
 		days := local / 86400
 		if local%86400 != 0 && local < 0 {
 			days--
@@ -351,12 +379,61 @@ func TestCheck(t *testing.T) {
 			}
 		})
 	})
+	// Phase E2: zones whose name is special ("UTC", "", "Local", "GMT") but whose offset is not zero.
+	r.Phase("E2: fixed zones with special names and non-zero offsets", func() {
+		base := boundarySet(120)
+		r.Parallel(int64(len(base)), 1, func(w *vkit.W, lo, hi int64) {
+			for i := lo; i < hi; i++ {
+				mid := base[i].ord() * 86400
+				for _, name := range []string{"UTC", "", "Local", "GMT", "Z", "utc"} {
+					for _, off := range []int{2 * 3600, -5 * 3600, 14 * 3600, -12 * 3600, 1} {
+						for _, ds := range []int64{-3601, -1, 0, 1, 3600, 5400} {
+							c := Case{Kind: "fromtime", Sec: mid - int64(off) + ds, Off: off, Zone: "name:" + name}
+							judge(c, w)
+							w.Eval(true)
+						}
+					}
+				}
+			}
+		})
+	})
+
+	// Phase E3: time-zone database locations with daylight saving: consecutive conversions in one location at instants whose
+	// offsets differ (the order of the instants is shuffled), near local midnight.
+	r.Phase("E3: tz-database locations (DST), instants near local midnight in January and July of many years, shuffled order", func() {
+		zones := []string{"Europe/Prague", "America/New_York", "Australia/Lord_Howe", "Asia/Kolkata", "Pacific/Apia", "America/St_Johns", "Asia/Kathmandu", "Africa/Casablanca", "Pacific/Chatham", "Europe/London", "UTC"}
+		r.Parallel(int64(len(zones)), 1, func(w *vkit.W, lo, hi int64) {
+			for zi := lo; zi < hi; zi++ {
+				g := r.Rng("tz", zi)
+				for year := int64(1960); year <= 2040; year += 3 {
+					var secs []int64
+					for _, md := range [][2]int{{1, 15}, {7, 2}, {3, 31}, {10, 28}, {12, 31}, {4, 1}} {
+						mid := ref.DaysFromCivil(year, md[0], md[1]) * 86400
+						for _, h := range []int64{-14, -12, -6, -2, -1, 0, 1, 2, 6, 11, 13} {
+							for _, ds := range []int64{-1800, -1, 0, 1, 1800} {
+								secs = append(secs, mid+h*3600+ds)
+							}
+						}
+					}
+					for k := len(secs) - 1; k > 0; k-- { // seeded shuffle: January and July instants alternate irregularly
+						j := g.Intn(k + 1)
+						secs[k], secs[j] = secs[j], secs[k]
+					}
+					for _, sec := range secs {
+						c := Case{Kind: "fromtime", Sec: sec, Zone: "tz:" + zones[zi]}
+						judge(c, w)
+						w.Eval(true)
+					}
+				}
+			}
+		})
+	})
 	r.Sampled()
 
 	r.Phase("F: rapid mixed cases", func() {
 		ymd := rapid.Custom(func(rt *rapid.T) YMD {
 			y := int64(rapid.IntRange(0, 9999).Draw(rt, "y"))
-			if rapid.IntRange(0, 9).Draw(rt, "far") == 0 {
+			if rapid.IntRange(0, 4).Draw(rt, "far") == 0 {
 				y = int64(rapid.IntRange(-9999, 19999).Draw(rt, "yFar"))
 			}
 			m := rapid.IntRange(1, 12).Draw(rt, "m")
@@ -380,7 +457,8 @@ func TestCheck(t *testing.T) {
 			case 3:
 				c = Case{Kind: "time", A: ymd.Draw(rt, "a")}
 			default:
-				c = Case{Kind: "fromtime", Sec: rapid.Int64Range(-62135596800-86400*366, 253402300799).Draw(rt, "sec"), Nsec: int64(rapid.IntRange(0, 999999999).Draw(rt, "ns")), Off: rapid.IntRange(-12*3600, 14*3600).Draw(rt, "off")}
+				c = Case{Kind: "fromtime", Sec: rapid.Int64Range(-62135596800-86400*366, 253402300799).Draw(rt, "sec"), Nsec: int64(rapid.IntRange(0, 999999999).Draw(rt, "ns")), Off: rapid.IntRange(-12*3600, 14*3600).Draw(rt, "off"),
+					Zone: rapid.SampledFrom([]string{"", "", "name:UTC", "name:", "tz:Europe/Prague", "tz:America/New_York", "tz:Australia/Lord_Howe", "tz:Asia/Kolkata"}).Draw(rt, "zone")}
 			}
 			judge(c, w)
 			b, _ := json.Marshal(c)
